@@ -150,6 +150,12 @@ tree after the `name` callback, handed on by `toR`).  Theorems quantify over ALL
   real unresolved circuit (Verilog, every library), on sampled assignments.
 * **Oracle** (harness/c11.py): truth table of the parsed + resolved circuit under the real `LogicSim(m=2)` against the
   generator's own evaluation of the netlist it rendered; port order; Verilog vs bench.  This decides violations.
+  "Verilog vs bench" ("the same netlist written in either format yields equivalent circuits") is a THEOREM for the two canonical
+  renderings `benchOf nl` / `verilogOf nl` of one netlist description `nl` of the common fragment `commonNlB` (combinational and
+  sequential kinds): same models, same interface positions, same observations, same 2-valued `LogicSim` results at the interface
+  (Props/C11Library.lean section `FormatEquiv`: `bench_verilog_equiv`, `bench_verilog_interface_positions`, `bench_verilog_captures`,
+  `bench_verilog_sim_equiv`, `renderings_build`, `bench_verilog_sim_equiv_closed`; tie harness/c11.py `format_eq_hyp`, tags
+  `format-eq-hyp:*`); for the REAL renderings of the generator (shuffled, renamed, library pin names, buses, assigns) it stays oracle.
   The step from "right connectivity" to "right Boolean function" (DESIGN `parsed_sem`) is now a theorem for bench and for the
   Verilog fragment above; through `resolve_tlib_cells` it is a theorem for modules of the fragment over certified combinational
   library cells (capstone Props/C11Library.lean: `verilog_parsed_sem_holes`, `verilog_resolved_rel`, `verilog_resolved_datasheet`,
